@@ -83,6 +83,16 @@ func c03run(o *rcOut, name string, w c03workload, f c03fault, srvCutAfter int, j
 			if op.Kind == verifsim.OpWrite {
 				return &verifsim.Fault{Err: verifsim.ErrInjected, Partial: len(op.Data) / 2, Break: true}
 			}
+		case "w0-soft", "whalf-soft":
+			// the write fails (nothing / half of it was taken) but the socket is not torn down by it - a write timeout, a full
+			// buffer: a later write on it would go through. The connection has failed all the same.
+			if op.Kind == verifsim.OpWrite {
+				n := 0
+				if f.flavour == "whalf-soft" {
+					n = len(op.Data) / 2
+				}
+				return &verifsim.Fault{Err: verifsim.ErrInjected, Partial: n}
+			}
 		case "eof", "reset":
 			if op.Kind == verifsim.OpRead {
 				e := verifsim.ErrInjected
@@ -192,6 +202,11 @@ func c03run(o *rcOut, name string, w c03workload, f c03fault, srvCutAfter int, j
 			rep.bad("conn-left-open", "%s: the client is done but its socket was not closed", name)
 		}
 		env.quiesce()
+	} else if faulted.Load() && strings.HasPrefix(f.flavour, "w") {
+		// "if the connection fails at any point - while writing a request ...": a write that failed (all of it or from the
+		// middle of a frame on) is the connection failing, whether or not the socket would take another write
+		rep.bad("write-failure-ignored", "%s: operation %d on the connection, a write, failed (%s) and the client went on using the connection: "+
+			"it is not closed, %d of its calls are not completed with a connection-level error", name, f.k, f.flavour, len(env.pendingLive()))
 	} else if f.k == 0 && srvCutAfter == 0 {
 		for _, c := range env.calls {
 			if r, ok := c.first(); !ok || r.Error != nil {
@@ -501,7 +516,7 @@ func TestVerifC03(t *testing.T) {
 	}
 
 	// ---- B: k-th operation fails
-	flavours := []string{"w0", "whalf", "eof", "reset", "deadline", "deadline-soft", "close"}
+	flavours := []string{"w0", "whalf", "w0-soft", "whalf-soft", "eof", "reset", "deadline", "deadline-soft", "close"}
 	for wi, w := range c03workloads {
 		if !full && wi == 4 {
 			continue
